@@ -34,6 +34,14 @@ CHECKS = {
         design_ref="3 C04",
         technique="symbolic execution of the real Python functions with CrossHair (z3), symbolic engine answers; replay on the real stack",
     ),
+    "C20": dict(
+        category="other",
+        text="Bounded symbolic execution (CrossHair/z3) of the real CLI argument splitter composed with the real argparse parser and "
+        "cli.main on symbolic argv strings (any unicode within the length bound, every option spelling), and of the real patch() "
+        "generator over symbolic choices of extra targets, exit mode and nesting with the real unittest.mock.",
+        design_ref="3 C20",
+        technique="symbolic execution of the real Python functions with CrossHair (z3); real argparse/unittest.mock; recorders for runpy",
+    ),
 }
 
 NOT_YET = "not claimed yet: check not built in this round (see DESIGN.md 7 for the order of work)"
